@@ -1190,6 +1190,19 @@ func (g *G) TopStmt() ast.Node {
 			g.declare(name, t, false)
 			return st
 		case 4: // expression
+			if g.O.Generators && r.Chance(1, 8) {
+				// a generator function called outside any for loop: its yields only evaluate to their operands
+				for _, v := range g.Globals {
+					if v.T.K == TGen {
+						args := make([]ast.Node, len(v.T.Params))
+						for i, p := range v.T.Params {
+							args[i] = g.Expr(p, 1)
+						}
+						g.cls("top:naked-generator-call")
+						return ast.Call{Fn: v.Name, Args: args}
+					}
+				}
+			}
 			g.cls("top:expr")
 			return g.Expr(g.valueType(), d)
 		case 5: // block with a value
